@@ -11,6 +11,7 @@ import builtins
 import errno
 import io
 import logging
+import math
 import os
 import sys
 import time as _real_time_module
@@ -41,6 +42,7 @@ DEFAULT_CONFIG = {
     "logger": {"kind": "default"},
     "warnings": {"kind": "always"},
     "numpy_print": {"kind": "default"},
+    "numpy_err": {"kind": "default"},
 }
 
 LATENCY = {"disk": 2e-5, "solver": 1e-3, "stdout": 1e-5}
@@ -215,6 +217,7 @@ class SimRaw(io.RawIOBase):
                 raise FileNotFoundError(errno.ENOENT, "No such file or directory", path)
         elif mode == "w":
             disk.files[path] = bytearray()
+            disk.mtimes[path] = world.clock.now
         elif mode == "x":
             if path in disk.files:
                 raise FileExistsError(errno.EEXIST, "File exists", path)
@@ -305,6 +308,7 @@ class SimRaw(io.RawIOBase):
             buf[self._pos : self._pos + len(data)] = data
         self._pos += len(data)
         self.world.disk.bytes_written += len(data)
+        self.world.disk.mtimes[self.path] = self.world.clock.now
 
     def readinto(self, b):
         w = self.world
@@ -363,6 +367,7 @@ class SimDisk:
     def __init__(self, world, platform):
         self.world = world
         self.files = {}
+        self.mtimes = {}
         self.platform = dict(DEFAULT_PLATFORM)
         self.platform.update(platform or {})
         self.max_xfer = int(self.platform["max_xfer"])
@@ -406,6 +411,7 @@ class SimDisk:
     # harness-side helpers (not seam events)
     def put(self, path, data):
         self.files[path] = bytearray(data)
+        self.mtimes[path] = self.world.clock.now
 
     def get(self, path):
         return bytes(self.files[path])
@@ -695,6 +701,45 @@ class World:
 
         self._ue = _ue
         _ue.HOOK[0] = _hook
+        # S8 (continued): numpy floating-point error state, as a host program may have set it
+        self._np_err = np.geterr()
+        ek = self.config.get("numpy_err", {}).get("kind", "default")
+        if ek == "ignore":
+            np.seterr(all="ignore")
+        elif ek == "warn":
+            np.seterr(all="warn")
+        # S1/S2 (continued): metadata of simulated files (os.stat and friends), with the platform's timestamp granularity
+        self._os_saved = {"stat": os.stat, "exists": os.path.exists, "isfile": os.path.isfile, "getsize": os.path.getsize,
+                          "getmtime": os.path.getmtime}
+        disk = self.disk
+        real_stat = os.stat
+
+        def _is_sim(path):
+            try:
+                p = os.fspath(path)
+            except TypeError:
+                return None
+            if isinstance(p, bytes):
+                p = p.decode(errors="replace")
+            return p if isinstance(p, str) and p.startswith(SIMFS) else None
+
+        def sim_stat(path, *args, **kwargs):
+            p = _is_sim(path)
+            if p is None:
+                return real_stat(path, *args, **kwargs)
+            if p not in disk.files:
+                raise FileNotFoundError(errno.ENOENT, "No such file or directory", p)
+            gran = float(disk.platform.get("mtime_granularity", 1e-7))
+            mt = math.floor(disk.mtimes.get(p, self.clock.t0) / gran) * gran
+            ns = int(round(mt * 1e9))
+            ino = sum(ord(c) for c in p) & 0xFFFF  # stable across interpreters (no hash())
+            return os.stat_result((0o100644, ino, 1, 1, 0, 0, len(disk.files[p]), int(mt), int(mt), int(mt), mt, mt, mt, ns, ns, ns))
+
+        os.stat = sim_stat
+        os.path.exists = lambda path: (_is_sim(path) in disk.files) if _is_sim(path) is not None else self._os_saved["exists"](path)
+        os.path.isfile = lambda path: (_is_sim(path) in disk.files) if _is_sim(path) is not None else self._os_saved["isfile"](path)
+        os.path.getsize = lambda path: len(disk.files[_is_sim(path)]) if _is_sim(path) is not None else self._os_saved["getsize"](path)
+        os.path.getmtime = lambda path: sim_stat(path).st_mtime if _is_sim(path) is not None else self._os_saved["getmtime"](path)
         self._installed = True
         return self
 
@@ -703,6 +748,12 @@ class World:
         ssl = self._ssl
         s = self._saved
         self._ue.HOOK[0] = None
+        os.stat = self._os_saved["stat"]
+        os.path.exists = self._os_saved["exists"]
+        os.path.isfile = self._os_saved["isfile"]
+        os.path.getsize = self._os_saved["getsize"]
+        os.path.getmtime = self._os_saved["getmtime"]
+        np.seterr(**self._np_err)
         np.set_printoptions(**self._np_print)
         self._wctx.__exit__(None, None, None)
         lg = logging.getLogger("graphslam")
